@@ -175,16 +175,18 @@ def run(ctx):
 
     thorough = ctx.tier == 'thorough'
     all_tags = collections.Counter(); first_tag = {}; all_stats = collections.Counter(); mismatches = []
-    total = 0
-    def batch(lines, label):
+    total = 0; crashed = []
+    def batch(lines, label, quiet=False):
         nonlocal total
         n, mism, tags, first, stats = run_both(ctx, probe, drv, lines, label)
+        if n != len(lines): crashed.append(label)
         total += n; all_tags.update(tags); all_stats.update(stats)
         for t, v in first.items(): first_tag.setdefault(t, v)
         for m in mism:
             if len(mismatches) < 5: mismatches.append((label,) + m)
-        ctx.log('%s: %d cases, %d mismatches, predicate tags %s' % (label, n, stats.get('mismatch', 0), dict(tags)))
-        return n
+        if not quiet:
+            ctx.log('%s: %d cases, %d mismatches, predicate tags %s' % (label, n, stats.get('mismatch', 0), dict(tags)))
+        return n, stats
 
     # ---- corpus (regression cases and the DESIGN 7.19 witnesses) first
     corpus = []
@@ -195,22 +197,33 @@ def run(ctx):
             if l and not l.startswith('#'): corpus.append(l)
     batch(corpus + input_error_cases(), 'corpus+input-errors')
 
-    # ---- exhaustive families
+    # ---- exhaustive families (pairwise disjoint: no two families share (bodies, joints))
     M3 = (0, 1, 2); M2 = (0, 1); T4 = (0, 2, 3, 4); T5 = (0, 1, 2, 3, 4); T3 = (0, 2, 3); T2 = (0, 2)
     # (bodies, joints, masses, joint types, self/Ground-Ground joints included)
-    fams = [(1, 0, M3, T5, True), (1, 1, M3, T5, True), (1, 2, M3, T5, True), (2, 0, M3, T5, True), (2, 1, M3, T5, True),
-            (2, 2, M3, T4, True), (3, 0, M3, T5, True), (3, 1, M3, T4, True),
-            (3, 2, M2, T3, False), (2, 3, M2, T2, False)]
-    if thorough:
-        fams += [(1, 3, M3, T4, True), (2, 2, M3, T5, True), (3, 2, M3, T3, False), (2, 3, M2, T3, False), (4, 2, M2, T2, False)]
-    exh = []
+    if not thorough:
+        fams = [(1, 0, M3, T5, True), (1, 1, M3, T5, True), (1, 2, M3, T5, True), (2, 0, M3, T5, True), (2, 1, M3, T5, True),
+                (2, 2, M3, T4, True), (3, 0, M3, T5, True), (3, 1, M3, T4, True),
+                (3, 2, M2, T3, False), (2, 3, M2, T2, False)]
+    else:
+        fams = [(1, 0, M3, T5, True), (1, 1, M3, T5, True), (1, 2, M3, T5, True), (1, 3, M3, T4, True),
+                (2, 0, M3, T5, True), (2, 1, M3, T5, True), (2, 2, M3, T5, True), (2, 3, M2, T3, False),
+                (3, 0, M3, T5, True), (3, 1, M3, T5, True), (3, 2, M3, T3, False), (4, 2, M2, T2, False)]
+    assert len(set((f[0], f[1]) for f in fams)) == len(fams)
+    exh = []; n_exh = 0; n_exh_ok = 0
     for (nbod, nj, ms, ts, ws) in fams:
-        lines = list(exhaustive(nbod, nj, ms, ts, ws))
-        assert len(lines) == exhaustive_count(nbod, nj, ms, ts, ws)
-        n = batch(lines, 'exhaustive bodies=%d joints=%d masses=%s types=%s self-joints=%s' % (nbod, nj, ms, ts, ws))
+        label = 'exhaustive bodies=%d joints=%d masses=%s types=%s self-joints=%s' % (nbod, nj, ms, ts, ws)
+        gen = exhaustive(nbod, nj, ms, ts, ws); n = 0; okc = 0; mm = 0
+        while True:
+            lines = list(itertools.islice(gen, 250000))
+            if not lines: break
+            k, st = batch(lines, label, quiet=True)
+            n += k; okc += st.get('ok', 0); mm += st.get('mismatch', 0)
+        if n != exhaustive_count(nbod, nj, ms, ts, ws): crashed.append(label)
+        ctx.log('%s: %d cases (%d Ok graphs), %d mismatches' % (label, n, okc, mm))
         exh.append({'bodies': nbod, 'joints': nj, 'masses': list(ms), 'joint_types': list(ts), 'self_and_ground_ground_joints': ws,
-                    'all_flag_combinations': True, 'cases': n})
-    n_exh = sum(e['cases'] for e in exh)
+                    'all_flag_combinations': True, 'cases': n, 'ok_graphs': okc})
+        n_exh += n; n_exh_ok += okc
+    max_exh = max((f[0], f[1]) for f in fams)
 
     # ---- random graphs
     nrand = 60000 if not thorough else 600000
@@ -218,25 +231,46 @@ def run(ctx):
     for i in range(nrand):
         r = ctx.rng.random()
         lines.append(random_graph(ctx.rng, 5 if r < 0.45 else (12 if r < 0.8 else 30), r >= 0.8))
+    # distinct random cases that are certainly outside every exhaustive family (>= 4 bodies... counted conservatively: > 4 bodies)
+    def nbod_of(l): return int(l.split()[7])
+    big = set(l for l in lines if nbod_of(l) > 4)
+    rand_ok_big = 0
     for k in range(0, len(lines), 200000):
-        batch(lines[k:k + 200000], 'random graphs (<=30 bodies) part %d' % (k // 200000))
-    distinct = len(set(lines))
+        chunk = lines[k:k + 200000]
+        batch(chunk, 'random graphs (<=30 bodies) part %d' % (k // 200000))
+    # count Ok outcomes among the distinct big random cases
+    if big:
+        bl = sorted(big)
+        n_, mism_, tags_, first_, stats_ = run_both(ctx, probe, drv, bl, 'recount')
+        rand_ok_big = stats_.get('ok', 0)
 
-    ctx.add_cases(total, distinct + n_exh, [lines[0], lines[1]] + [e for e in corpus[:2]])
-    ctx.cov['rule'] = ('correspondence: extracted model vs real MultibodyGraphMaker, exact comparison of joint list (incl. added base joints), '
-                       'mobilizer list (joint, level, inboard, outboard, reversed), loop constraints, slave->master table, body levels, '
-                       'or error kind+index.  distinct_nontrivial = distinct case lines (every exhaustive case is distinct by construction; random cases deduplicated).')
-    ctx.extra['exhaustive'] = {'families': exh, 'cases': n_exh,
-                               'exhaustive': True,
-                               'statement': 'every family listed is enumerated completely (all masses from the listed set, both mustBeBaseBody values, '
-                                            'every listed joint type, every ordered (parent,child) pair over Ground+bodies, both mustBeLoopJoint values, every joint order)'}
-    ctx.extra['random'] = {'cases': nrand, 'distinct': distinct, 'max_bodies': 30}
+    ctx.add_cases(total, n_exh_ok + rand_ok_big, [lines[0], lines[1]] + corpus[:2])
+    ctx.cov['rule'] = ('correspondence: extracted model vs real MultibodyGraphMaker on the same case line, exact comparison of joint list (incl. added base joints), '
+                       'mobilizer list (joint, level, inboard, outboard, reversed), loop constraints, slave->master table, body levels, or error kind+index. '
+                       'Cases: corpus + precondition-error cases, then every member of the exhaustive families listed under exhaustive_families, then random graphs '
+                       '(tree-like with extra loop joints / chains with massless interior bodies / uniform multigraphs; 1..30 bodies; mustBeBase, mustBeLoop, massless bodies, '
+                       'reversed and Ground-child joints, self joints). non-trivial = generateGraph succeeded (an Ok graph, the hypothesis of the theorems); '
+                       'distinct = exhaustive cases are pairwise distinct by construction, random cases are deduplicated and counted only when they have more than 4 bodies '
+                       '(so they cannot coincide with an exhaustive case).')
+    ctx.extra['exhaustive'] = (not crashed)
+    ctx.extra['exhaustive_families'] = exh
+    ctx.extra['exhaustive_scope'] = ('every family listed is enumerated completely: all masses from the listed set, both mustBeBaseBody values, every listed joint type '
+                                     '(0 weld, 1 free, 2 pin(1 dof, no loop constraint), 3 ball(3 dof, loop constraint), 4 lock(0 dof, no loop constraint)), every ordered '
+                                     '(parent,child) pair over Ground+bodies (self and Ground-Ground joints where stated), both mustBeLoopJoint values, every joint order; '
+                                     'the random cases are in addition to that and are of course not exhaustive')
+    ctx.extra['exhaustive_cases'] = n_exh
+    ctx.extra['random'] = {'cases': nrand, 'distinct_with_more_than_4_bodies': len(big), 'of_those_ok_graphs': rand_ok_big, 'max_bodies': 30}
     ctx.extra['outcomes'] = dict(all_stats)
     ctx.extra['implementation_predicate_tags'] = dict(all_tags)
+    ctx.extra['not_decided'] = ['clearGraph/deleteBody/deleteJoint and regeneration', 'duplicate-name and reserved-name throws of addBody/addJoint/addJointType',
+                                'that the model equals the code outside the compared cases (differential testing)',
+                                'mustBeBaseBody in full: refuted (two witnesses); proved only under base_joint_precondition, with the massless-chain exception']
     ctx.assumptions += ['masses are integers in the model; the harness passes the same integers as doubles (only comparisons with 0 and with each other are made)',
                         'Ground\'s mass (Infinity in the code) and slave masses (NaN) are never read by generateGraph; the model uses a placeholder',
                         'the model mirrors the Release build (assert() absent); names are replaced by indices, so duplicate-name checks of addBody/addJoint/addJointType are outside the model',
                         'clearGraph/deleteBody/deleteJoint and regeneration after deletion are not modelled; only a fresh maker followed by generateGraph']
+    if crashed:
+        ctx.broken.append(('correspondence:crash', 'probe or driver crashed / wrong line count in: ' + '; '.join(crashed[:3])))
 
     # ---- correspondence verdict
     if mismatches:
